@@ -145,6 +145,19 @@ AlphaKeysScalar ==
      EvDate("2000-01-02", <<50,48,48,48,45,48,49,45,48,50>>),
      EvStr(<<50,48,48,48,45,48,49,45,48,49>>), EvStr(<<53>>), EvRid(<<53>>) >>
 
+(* integers beyond 2^128, 2^192, 2^256 ... (the validator's key of a big     *)
+(* integer is an array of machine words whose length grows with the value)  *)
+AlphaKeysWide ==
+  << EvBD, EvVer(0), EvED, EvMap, EvEnd, EvRT("a"), EvNull, EvInt("pint", "5"),
+     EvInt("bigint", "340282366920938463463374607431768211456"),
+     EvInt("bigint", "-340282366920938463463374607431768211456"),
+     EvInt("bigint", "6277101735386680763835789423207666416102355444464034512896"),
+     EvInt("bigint", "-6277101735386680763835789423207666416102355444464034512896"),
+     EvInt("bigint", "6277101735386680763835789423207666416102355444464034512897"),
+     EvInt("bigint", "115792089237316195423570985008687907853269984665640564039457584007913129639936"),
+     EvInt("bigint", "2135987035920910082395021706169552114602704522356652769947041607822219725780640550022962086936576"),
+     EvInt("bigint", "2135987035920910082395021706169552114602704522356652769947041607822219725780640550022962086936577") >>
+
 AlphaKeysStr ==
   << EvBD, EvVer(0), EvED, EvMap, EvEnd, EvRT("a"), EvNull,
      EvStr(<<97>>), EvStrA(<<97>>), EvRid(<<97>>), EvArr("rid", 1, <<97>>), EvStr(<<98>>),
